@@ -195,12 +195,19 @@ impl BinaryMatrix for DenseBinaryMatrix {
 
     fn get_row_iter(&self, row: usize, start_col: usize, end_col: usize) -> OctetIter<'_> {
         let (first_word, first_bit) = self.bit_position(row, start_col);
-        let (last_word, _) = self.bit_position(row, end_col);
+        let (last_word, last_bit) = self.bit_position(row, end_col);
+        // end_col is exclusive: when it falls on a word boundary, the word it points into is not
+        // part of the range (and lies past the end of `elements` for the last row)
+        let end_word = if last_bit == 0 {
+            last_word.max(first_word)
+        } else {
+            last_word + 1
+        };
         OctetIter::new_dense_binary(
             start_col,
             end_col,
             first_bit,
-            &self.elements[first_word..=last_word],
+            &self.elements[first_word..end_word],
         )
     }
 
